@@ -1351,7 +1351,10 @@ class Process(StateMachine, persistence.Savable, metaclass=ProcessStateMachineMe
                 next_state = self.create_state(process_states.ProcessState.EXCEPTED, *sys.exc_info()[1:])
                 self._set_interrupt_action(None)
 
-            if self._interrupt_action:
+            if self.has_terminated():
+                # terminated from outside while this step was in flight (e.g. failed by a scheduled callback)
+                pass
+            elif self._interrupt_action:
                 self._interrupt_action.run(next_state)
             else:
                 # Everything nominal so transition to the next state
